@@ -118,6 +118,14 @@ def replay_encoding(p):
         if ci == 2:
             from dliswriter.utils.internal.struct_writer import write_struct_ident
             b, e = _try(write_struct_ident, s)
+        elif ci >= 3:
+            z = _item(1, 0, s)
+            b, e = _try(write_struct, RepC.OBJREF if ci == 4 else RepC.OBNAME, z)
+            if e is None and n <= 255:
+                k = 5 if ci == 4 else 0
+                if (ci == 4 and b[:5] != b'\x04ZONE') or b[k:k + 2] != b'\x01\x00':
+                    return _res(p, f'object name of {n} chars: reference starts {b[:8].hex()}', {'n': n, 'route': ci}, {'n': n, 'route': ci})
+                b = b[k + 2:]
         else:
             b, e = _try(write_struct, RepC.ASCII if ci == 1 else RepC.IDENT, s)
         if e is not None:
